@@ -342,7 +342,8 @@ let run_case (t : string list) : string =
               match !stack with t :: b -> (t, b) | [] -> failwith "empty stack"
             in
             let res =
-              if o = "[" then Some ([] :: top :: below)
+              if o = "[c" then Some (top :: top :: below)
+              else if o = "[" then Some ([] :: top :: below)
               else if o = "]" then
                 (match below with
                  | b :: bb ->
